@@ -9,8 +9,14 @@ def groups():
     for k, (h, props, what) in {
             1: ('h_s_rotate', ['C01', 'C02'], '__cstl_bintree_rotate on every neighbourhood (both orientations, optional subtrees, under the root slot or either child slot): y replaces x, in-order sequence and all back-links preserved, opaque subtrees and everything above untouched'),
             2: ('h_s_fix_insertion', ['C02', 'C01'], 'cstl_rbtree_fix_insertion on every neighbourhood (both orientations, x inner/outer child, uncle absent/red/black, subtree heights 1..3): black counts unchanged, in-order sequence unchanged, red uncle => violation moves two levels up, black uncle => no violation left and the loop stops'),
+            5: ('h_s_insert', ['C01'], 'cstl_bintree_insert on every descent neighbourhood (from the root slot or from a hint node placed anywhere; path of 0..3 nodes with every left/right pattern, the subtrees off the path opaque or absent; comparison results as the path prescribes, magnitudes 1..3, equal keys going right): the new node is linked in the free slot at the end of the descent, in-order place next to the last path node, nothing else written, size + 1'),
             4: ('h_s_erase', ['C01', 'C02'], '__cstl_bintree_erase on every neighbourhood (under the root slot or either child slot; no / left / right / both children; successor 1, 2 or 3 levels down the right subtree, with and without its own right child): the in-order sequence loses exactly the erased node, every back-link consistent, opaque subtrees and everything above untouched, size - 1, the given-up position reported'),
             3: ('h_s_fix_deletion', ['C02', 'C01'], 'cstl_rbtree_fix_deletion on every neighbourhood (both orientations, real node or stack stand-in, sibling black/red, nephews absent/black/red, heights 1..3): rotation cases restore the missing black node, recolour case moves the deficit to the parent; in-order sequence and back-links preserved')}.items():
+        if k == 5:
+            for lo, hi in ((0, 2), (3, 3)):
+                G.append(Group('rbstep.insert.len%d_%d' % (lo, hi), props, 'S', S, h, sources=src, defines=['-DVF_S=5', '-DVF_INS_LO=%d' % lo, '-DVF_INS_HI=%d' % hi],
+                               unwind=20, timeout=1800, object_bits=12, replay=False, what=what + ' [paths of %d..%d nodes]' % (lo, hi)))
+            continue
         G.append(Group('rbstep.%s' % h[4:], props, 'S', S, h, sources=src, defines=['-DVF_S=%d' % k], unwind=20, timeout=1800, object_bits=12, replay=False,
                        what=what))
     return G
